@@ -65,6 +65,7 @@ Fresh ==
     /\ peerAlive' = TRUE /\ alertIn' = FALSE /\ abortIn' = FALSE /\ shutdownIn' = FALSE
     /\ wfcLeft' = 2
     /\ fired' = <<>>
+    /\ flapLeft' = 0 /\ flapping' = FALSE
 
 TraceInit ==
     /\ peer = "New" /\ sig = "Stable" /\ reason = "None"
@@ -84,6 +85,7 @@ TraceInit ==
     /\ peerAlive = TRUE /\ alertIn = FALSE /\ abortIn = FALSE /\ shutdownIn = FALSE
     /\ wfcLeft = 2
     /\ fired = <<>>
+    /\ flapLeft = 0 /\ flapping = FALSE
     /\ l = 1 /\ k = 0 /\ tr = FreshTr /\ viol = {}
     /\ TLCSet(1, 1)
 
@@ -139,7 +141,7 @@ TSig ==
           /\ sig' = Ev.sig
           /\ UNCHANGED <<peer, reason, ap, iceT, sock, seenL, seenC, role, lp, cp, cval, cnext, dtls, dtask,
                          dpermit, seenD, sctp, stask, srun, spermit, swhy, loops, chan, opened, closes, grace, cl,
-                         handles, dropped, calls, sendpc, peerAlive, alertIn, abortIn, shutdownIn, wfcLeft, fired>>
+                         handles, dropped, calls, sendpc, peerAlive, alertIn, abortIn, shutdownIn, wfcLeft, fired, flapLeft, flapping>>
     /\ UNCHANGED tr /\ Consume
 
 \* ---- C
@@ -215,13 +217,22 @@ TFireEffect(e) ==
 TFire ==
     /\ Is("fire")
     /\ TFireEffect(Ev.site)
-    /\ fired' = Append(fired, [ev |-> Ev.site, phase |-> "none", at |-> "any"])
+    /\ fired' = Append(fired, [ev |-> Ev.site, phase |-> "none", flaps |-> 0, at |-> "any"])
     /\ tr' = [tr EXCEPT !.localFired = @ \/ (Ev.site \in {"Close", "Drop"}),
                         !.remoteFired = @ \/ (Ev.site \notin {"Close", "Drop"})]
     /\ dpermit' = (IF Ev.site = "OwnDtlsClose" /\ dtls # "none" THEN TRUE ELSE dpermit)
     /\ UNCHANGED <<peer, sig, reason, ap, seenL, seenC, role, lp, cp, cval, cnext, dtls, dtask, seenD, sctp,
-                   stask, srun, spermit, swhy, loops, chan, opened, closes, grace, dropped, wfcLeft>>
+                   stask, srun, spermit, swhy, loops, chan, opened, closes, grace, dropped, wfcLeft, flapLeft, flapping>>
     /\ UNCHANGED viol /\ Consume
+
+\* the harness starts / ends a recoverable blackout (the peer's runtime is frozen for a while)
+TFlap ==
+    /\ Is("flap")
+    /\ flapLeft' = IF Ev.site = "begin" THEN flapLeft + 1 ELSE flapLeft
+    /\ UNCHANGED <<peer, sig, reason, ap, iceT, sock, seenL, seenC, role, lp, cp, cval, cnext, dtls, dtask, dpermit,
+                   seenD, sctp, stask, srun, spermit, swhy, loops, chan, opened, closes, grace, cl, handles, dropped,
+                   calls, sendpc, peerAlive, alertIn, abortIn, shutdownIn, wfcLeft, fired, flapping>>
+    /\ UNCHANGED <<tr, viol>> /\ Consume
 
 TCloseBegin ==
     /\ Is("close_begin")
@@ -293,7 +304,7 @@ TApiBegin ==
     /\ calls' = (IF Ev.site \in {"wfc", "send"} THEN calls \cup {Ev.site} ELSE calls) /\ UNCHANGED sendpc
     /\ UNCHANGED <<peer, sig, reason, ap, iceT, sock, seenL, seenC, role, lp, cp, cval, cnext, dtls, dtask, dpermit,
                    seenD, sctp, stask, srun, spermit, swhy, loops, chan, opened, closes, grace, cl, handles, dropped,
-                   peerAlive, alertIn, abortIn, shutdownIn, wfcLeft, fired>>
+                   peerAlive, alertIn, abortIn, shutdownIn, wfcLeft, fired, flapLeft, flapping>>
     /\ UNCHANGED <<tr, viol>> /\ Consume
 
 TApiEnd ==
@@ -302,7 +313,7 @@ TApiEnd ==
     /\ UNCHANGED sendpc
     /\ UNCHANGED <<peer, sig, reason, ap, iceT, sock, seenL, seenC, role, lp, cp, cval, cnext, dtls, dtask, dpermit,
                    seenD, sctp, stask, srun, spermit, swhy, loops, chan, opened, closes, grace, cl, handles, dropped,
-                   peerAlive, alertIn, abortIn, shutdownIn, wfcLeft, fired>>
+                   peerAlive, alertIn, abortIn, shutdownIn, wfcLeft, fired, flapLeft, flapping>>
     /\ UNCHANGED <<tr, viol>> /\ Consume
 
 TApiHang ==
@@ -335,6 +346,12 @@ TEnd ==
     /\ UNCHANGED vars /\ UNCHANGED tr /\ Consume
 
 -----------------------------------------------------------------------------
+\* either agent re-publishes an "up" ICE state now and then (Connected <-> Completed); the loops see a change
+T_IceRenotify ==
+    /\ iceT \in IceUp /\ peerAlive /\ ~IsDirect
+    /\ iceT' = IF iceT = "Connected" THEN "Completed" ELSE "Connected"
+    /\ UNCHANGED <<sock, peerAlive>> /\ UNCHANGED EUnch
+
 (* silent steps: what the log does not show *)
 Silent ==
     /\ k < MaxSilent
@@ -352,13 +369,13 @@ Silent ==
        \/ S_Start \/ S_DtlsUp \/ S_Established \/ S_ChanOpen \/ S_Closed \/ S_DtlsGone \/ S_Abort \/ S_PeerSilent
        \/ S_InputClosed \/ S_ShutdownAck
        \/ T_DirectEnd
-       \/ I_Connect \/ I_Complete \/ I_Disconnect \/ I_Fail
+       \/ I_Connect \/ I_Complete \/ T_IceRenotify \/ I_Disconnect \/ I_Fail \/ I_FlapDown \/ I_FlapUp
     /\ k' = k + 1
     /\ UNCHANGED <<l, tr, viol>>
 
 TraceNext ==
     \/ TReset \/ TProcStart \/ TProcExit \/ TIceSeen \/ TSig \/ TStartTransport \/ TDtlsStarted \/ TDtlsConnected
-    \/ TLoopsStart \/ TLoopsDone \/ TPub \/ TFire \/ TCloseBegin \/ TCloseNoop \/ TCloseEnd \/ TDropBegin \/ TDropEnd
+    \/ TLoopsStart \/ TLoopsDone \/ TPub \/ TFire \/ TFlap \/ TCloseBegin \/ TCloseNoop \/ TCloseEnd \/ TDropBegin \/ TDropEnd
     \/ TWatch \/ TWatchSig \/ TDcOpen \/ TDcClose \/ TApiBegin \/ TApiEnd \/ TApiHang \/ TEnd
     \/ Silent
 
